@@ -122,6 +122,8 @@ func script(t N) string {
 	sb.WriteString("func outerh() {\nreturn spawn(func() {\ntime.sleep(0.02)\nreturn 41 + 1\n})\n}\nhh := spawn(outerh).wait()\nmark(\"nested\", 14, hh.wait())\n")
 	// the host's own use of the spawn API (object.Spawn with an argument buffer it reuses), and builtins that call
 	// script callbacks run as spawned calls while the spawner keeps running
+	// the arguments (and the callee) of a go statement are evaluated at the statement, also when they are calls
+	sb.WriteString("func dbl(a) {\nreturn a * 2\n}\nfunc mkw() {\nreturn func(a, d) { d <- (a + 1) }\n}\ngo addsend(dbl(3), dbl(0) + 1, dd)\ng19 := <-dd\ngo dd.send(dbl(21))\ng20 := <-dd\ngo mkw()(dbl(5), dd)\ng21 := <-dd\nmark(\"go\", 19, [g19, g20, g21])\n")
 	sb.WriteString("mark(\"hostspawn\", 15, hostfan(func(a) { return a * 10 }, [1, 2, 3, 4]))\n")
 	sb.WriteString("items := []\nfor i := 0; i < 20; i++ {\nitems.append(i)\n}\ncb := chan()\ntq := spawn(items.map, func(x) {\ncb <- (x * 2)\nreturn x + 1\n})\nrq := []\nfor i := 0; i < 20; i++ {\nrq.append(<-cb)\n}\nmark(\"spawnbuiltin\", 16, [rq, tq.wait()])\n")
 	sb.WriteString("go items.each(func(x) { cb <- (x * 3) })\nrg := []\nfor i := 0; i < 20; i++ {\nrg.append(<-cb)\n}\nmark(\"spawnbuiltin\", 18, rg)\n")
